@@ -48,7 +48,7 @@ var wanted = map[string]bool{
 	"Failover.doBuild": true, "FailoverOf.doBuild": true, "Failover.refreshStale": true, "FailoverOf.refreshStale": true,
 	"HTTPTransfer.Export": true, "HTTPTransfer.Import": true, "HTTPTransfer.importCache": true, "HTTPTransfer.AddCache": true,
 	"shardedMap.evictLeast": true, "shardedMapOf.evictLeast": true, "syncMap.evictLeast": true,
-	"shardedMap.evictLeastCounter": true, "shardedMap.evictMostExpired": true, "Trait.janitor": true,
+	"shardedMap.evictLeastCounter": true, "shardedMap.evictMostExpired": true, "Trait.janitor": true, "Trait.reportItemsCount": true,
 	"shardedMap.Load": true, "shardedMap.Store": true, "shardedMapOf.Load": true, "shardedMapOf.Store": true,
 	"syncMap.Load": true, "syncMap.Store": true, "NewShardedMap": true, "NewSyncMap": true, "NewShardedMapOf": true,
 	"Trait.init": true, "NewFailover": true, "NewFailoverOf": true,
@@ -63,6 +63,15 @@ var wanted = map[string]bool{
 	"InvalidationIndex.cutKeys": true, "InvalidationIndex.invalidateByLabels": true,
 	"Trait.NotifyWritten": true, "Trait.NotifyDeleted": true, "Trait.NotifyExpiredAll": true, "Trait.NotifyDeletedAll": true,
 	"TraitOf.NotifyWritten": true,
+	"errExpired.Error":      true, "errExpired.ExpiredAt": true, "errExpired.Is": true, "errExpired.Value": true,
+	"errExpiredOf.Error": true, "errExpiredOf.ExpiredAt": true, "errExpiredOf.Is": true, "errExpiredOf.Value": true,
+	"TraitEntry.ExpireAt": true, "TraitEntry.Key": true, "TraitEntry.Value": true,
+	"TraitEntryOf.ExpireAt": true, "TraitEntryOf.Key": true, "TraitEntryOf.Value": true,
+	"ts": true, "tsTime": true, "readerCnt.Read": true, "writerCnt.Write": true,
+	"NoOp.Read": true, "NoOp.Write": true, "NoOp.Delete": true, "syncMap.deleteEntry": true,
+	"NewInvalidationIndex": true, "HTTPTransfer.CachesCount": true, "NewTrait": true, "NewTraitOf": true,
+	"SentinelError.Error": true, "ShardedMapOf.WalkDumpRestorer": true, "shardedMapLegacyWalkerOf.Walk": true,
+	"syncMap.evictLeastCounter": true, "syncMap.evictMostExpired": true, "shardedMapOf.evictLeastCounter": true, "shardedMapOf.evictMostExpired": true,
 }
 
 type tr struct {
@@ -634,6 +643,42 @@ func (t *tr) stmt(s ast.Stmt) string {
 			}
 
 			return fmt.Sprintf("(GSwitch %s %s)", tag, list(cs))
+		}
+	case *ast.SelectStmt:
+		// select over receives whose values are discarded: the runtime's choice is the oracle "$select" over the channel
+		// expressions (in source order); `default` is the switch's default
+		var chans, cs []string
+
+		ok := true
+
+		for _, c := range x.Body.List {
+			cc := c.(*ast.CommClause)
+			if cc.Comm == nil {
+				cs = append(cs, fmt.Sprintf("([], %s)", t.block(cc.Body)))
+
+				continue
+			}
+
+			es, isExpr := cc.Comm.(*ast.ExprStmt)
+			if !isExpr {
+				ok = false
+
+				break
+			}
+
+			u, isRecv := es.X.(*ast.UnaryExpr)
+			if !isRecv || u.Op != token.ARROW {
+				ok = false
+
+				break
+			}
+
+			chans = append(chans, t.expr(u.X))
+			cs = append(cs, fmt.Sprintf("([(GInt %d)], %s)", len(chans)-1, t.block(cc.Body)))
+		}
+
+		if ok {
+			return fmt.Sprintf("(GSwitch (GCall %s %s) %s)", q("$select"), list(chans), list(cs))
 		}
 	case *ast.ReturnStmt:
 		if len(x.Results) == 1 {
